@@ -95,7 +95,24 @@ fn alphabet() -> Vec<Atk> {
 }
 
 fn invalids() -> Vec<Atk> {
-    vec![Atk::Invalid(vec![0x74, 0, 0]), Atk::Invalid(vec![0x64, 0, 0, 0, 5, 1]), Atk::Invalid(vec![0x7f, 0, 0, 0, 5]), Atk::Invalid(vec![0x75, 0, 0, 0, 5, 2, 0, 1])]
+    let mut v = vec![Atk::Invalid(vec![0x74, 0, 0]), Atk::Invalid(vec![0x64, 0, 0, 0, 5, 1]), Atk::Invalid(vec![0x7f, 0, 0, 0, 5]), Atk::Invalid(vec![0x75, 0, 0, 0, 5, 2, 0, 1])];
+    // every unassigned operation code, under both version nibbles a receiver accepts
+    for ver in [0x70u8, 0x00] {
+        for op in 7u8..=15 {
+            if ver | op != 0x7f {
+                v.push(Atk::Invalid(vec![ver | op, 0, 0, 0, 5]));
+            }
+        }
+    }
+    // other version nibbles on an otherwise valid Push
+    for ver in [0x10u8, 0x80, 0xf0] {
+        v.push(Atk::Invalid(vec![ver | 4, 0, 0, 0, 5, 1]));
+    }
+    // messages that end before the fixed fields of their frame type do
+    for m in [vec![], vec![0x74], vec![0x74, 0, 0, 0], vec![0x70, 0, 0, 0, 5, 0], vec![0x71, 0, 0, 0, 5, 0, 0], vec![0x75, 0, 0, 0, 5, 1], vec![0x76, 0, 0, 0, 5, 3, b'a']] {
+        v.push(Atk::Invalid(m));
+    }
+    v
 }
 
 struct Ctx {
